@@ -1774,6 +1774,19 @@ func main() {
 			h.Case(func(r *rng.R) sexp.Node { return runCase(r, specs, rq) })
 		}
 
+		// 0. schemas NewSchema must refuse: library resolvers without a Resolve function (calling them
+		// would panic at request time); a refusal that is missing is reported as a harness panic
+		h.Case(func(r *rng.R) sexp.Node {
+			for _, resolver := range []jsonapi.RelationshipResolver[*res]{jsonapi.ToOneRelationshipResolver[*res]{}, jsonapi.ToManyRelationshipResolver[*res]{ResolveByDefault: true}} {
+				_, err := jsonapi.NewSchema(&jsonapi.SchemaDefinition{ResourceTypes: map[string]jsonapi.AnyResourceType{
+					"things": jsonapi.ResourceType[*res]{Relationships: map[string]*jsonapi.RelationshipDefinition[*res]{"r": {Resolver: resolver}}},
+				}})
+				if err == nil {
+					panic("NewSchema accepted a relationship resolver without a Resolve function")
+				}
+			}
+			return runCase(r, richSchema(15, 15, false), defaultRequest())
+		})
 		// 1. Accept variants x a few endpoints (everything else fine)
 		for _, acc := range acceptVariants {
 			for _, p := range []string{"/things/1", "/unknown", "/things/1/relationships/many"} {
